@@ -54,8 +54,8 @@ func (p *Program) staticKeyLayout(ld LoadSpec) []*Obligation {
 					fixed[i] = true
 				}
 			}
-			ksegs, kerr := p.keySegments(kfn, fixed)
-			psegs, perr := p.keySegments(pfn, fixed)
+			ksegs, kerr := p.keySegments(kfn, fixed, nil)
+			psegs, perr := p.keySegments(pfn, fixed, fam.PrefixPos[pk])
 			switch {
 			case kerr != "" || perr != "":
 				// not analysable (branches, opaque parts): nothing is claimed, nothing is reported
@@ -75,7 +75,7 @@ func (p *Program) staticKeyLayout(ld LoadSpec) []*Obligation {
 }
 
 // keySegments executes a key constructor on symbolic arguments key_arg_<i> and returns its byte segments.
-func (p *Program) keySegments(fn *ssa.Function, fixed map[int]bool) (segs []keySeg, problem string) {
+func (p *Program) keySegments(fn *ssa.Function, fixed map[int]bool, posMap []int) (segs []keySeg, problem string) {
 	defer func() {
 		if r := recover(); r != nil {
 			segs, problem = nil, fmt.Sprintf("engine: %v", r)
@@ -92,10 +92,14 @@ func (p *Program) keySegments(fn *ssa.Function, fixed map[int]bool) (segs []keyS
 		if s == nil {
 			return nil, "parameter " + prm.Name() + " not representable"
 		}
-		a := Sym(fmt.Sprintf("key_arg_%d", i), s)
+		ki := i
+		if posMap != nil && i < len(posMap) {
+			ki = posMap[i]
+		}
+		a := Sym(fmt.Sprintf("key_arg_%d", ki), s)
 		args = append(args, a)
 		// strings and raw byte slices have no fixed length; account addresses are fixed-length in a key (A-KEYS)
-		if fixed[i] {
+		if fixed[ki] {
 			continue
 		}
 		if s == SStr || (s == SBytes && !strings.Contains(types.TypeString(prm.Type(), nil), "AccAddress")) {
